@@ -283,7 +283,7 @@ class ECU(UDSClient):
 
                 if steps is not None:
                     for step in steps:
-                        await self.set_session(step, use_db=False)
+                        await self.set_session(step, config=config, use_db=False)
 
                     resp = await self.diagnostic_session_control(level, config=config)
 
